@@ -435,6 +435,8 @@ struct Oracle {
     last_row_ts: HashMap<(u64, u64, u64), u64>,
     own_rows: HashMap<(u64, u64), u64>,
     own_max: u64,
+    /// greatest own timestamp known when the cached inventory announcement was last (re)created
+    inv_floor: u64,
 }
 
 fn run_case(run: &mut Run, prop: &str, id: &str, seed: u64, stream: u64, index: u64, len: usize) {
@@ -472,6 +474,7 @@ fn run_case(run: &mut Run, prop: &str, id: &str, seed: u64, stream: u64, index: 
     // by Peer::config / Service::initialize before the first event
     orc.own_rows.insert((0, 0), T0 + 2);
     orc.own_max = T0 + 2;
+    orc.inv_floor = T0 + 1;
     let mut tallies: BTreeSet<&'static str> = BTreeSet::new();
     let mut connected: BTreeSet<usize> = BTreeSet::new();
     // identity documents of local repositories can change during a scenario (SetDoc)
@@ -600,6 +603,7 @@ fn run_case(run: &mut Run, prop: &str, id: &str, seed: u64, stream: u64, index: 
         if let Ev::Restart = &ev {
             let tmax = table(&mut w).iter().filter(|t| t.0 == 0).map(|t| t.3).max().unwrap_or(0);
             restart_floor = Some(tmax.max(orc.own_max));
+            orc.inv_floor = tmax.max(orc.own_max);
             tallies.insert("restart");
         }
         if let Ev::Tick(now) = &ev { if *now < clock { tallies.insert("clock-reading-in-the-past"); } clock = clock.max(*now); }
@@ -618,22 +622,38 @@ fn run_case(run: &mut Run, prop: &str, id: &str, seed: u64, stream: u64, index: 
             }
             orc.last_row_ts.insert(k, t.3);
         }
-        // C29: an own announcement created in this step (new/changed own row) must carry a
-        // timestamp greater than every timestamp the node signed before this step
-        for t in tbl.iter().filter(|t| t.0 == 0) {
-            let k = (t.1, t.2);
-            let changed = orc.own_rows.get(&k).map(|old| *old != t.3).unwrap_or(true);
-            if changed {
-                if prop == "C29" && t.3 <= orc.own_max {
+        // C29: the first time an own announcement (kind, rid, ts) is observed — in the gossip table
+        // or in the outbox — it must carry a timestamp greater than every timestamp the node had
+        // signed before it was created.  The cached inventory announcement is created at
+        // (re)initialisation and may be observed later: its floor is the greatest own timestamp
+        // known at that (re)initialisation.
+        {
+            let mut first_seen: Vec<(u64, u64, u64)> = vec![];
+            for t in tbl.iter().filter(|t| t.0 == 0) {
+                let key = (t.1, t.2, t.3);
+                if !orc.own_seen.contains(&key) && !first_seen.contains(&key)
+                    && orc.own_rows.get(&(t.1, t.2)).map(|old| *old != t.3).unwrap_or(true) { first_seen.push(key); }
+                orc.own_rows.insert((t.1, t.2), t.3);
+            }
+            for (to, a) in &raw {
+                if a.node == w.nids[0] {
+                    let w5 = ann_w5(&w, *to, a);
+                    let key = (w5.2, w5.3, w5.4);
+                    if w5.2 != 1 && !orc.own_seen.contains(&key) && !first_seen.contains(&key)
+                        && orc.own_rows.get(&(w5.2, w5.3)).map(|old| *old != w5.4).unwrap_or(true) { first_seen.push(key); }
+                }
+            }
+            for (kind, rid, ts) in &first_seen {
+                let floor = if *kind == 0 { orc.inv_floor.min(orc.own_max) } else { orc.own_max };
+                if prop == "C29" && *ts <= floor && !(*kind == 0 && *ts == T0 + 2) {
                     run.fail(id, "c29-own-timestamp-not-increasing",
-                        format!("own announcement (kind {}, rid {}) created with t={} although t={} was already signed", t.1, t.2, t.3, orc.own_max),
+                        format!("own announcement (kind {}, rid {}) created with t={} although t={} was already signed", kind, rid, ts, floor),
                         json!({"step": step}));
                 }
-                orc.own_rows.insert(k, t.3);
             }
+            for t in tbl.iter().filter(|t| t.0 == 0) { orc.own_max = orc.own_max.max(t.3); }
+            for (_, a) in &raw { if a.node == w.nids[0] { orc.own_max = orc.own_max.max(*a.timestamp()); } }
         }
-        for t in tbl.iter().filter(|t| t.0 == 0) { orc.own_max = orc.own_max.max(t.3); }
-        for (_, a) in &raw { if a.node == w.nids[0] { orc.own_max = orc.own_max.max(*a.timestamp()); } }
         if let Ev::RecvAnn(p, i) = &ev {
             let a = &pool[*i];
             let after = tbl.iter().find(|t| (t.0 as usize, t.1, t.2 as usize) == (a.node, a.kind as u64, a.rid)).map(|t| t.3);
